@@ -108,6 +108,8 @@ package state
 //@ func EncryptionSession.In
 // (the frame below is the statement "receiving never touches an outgoing counter": nonce uniqueness, C15)
 //@   modifies s.lock, s.inKey, s.inCipher, s.reglSeqHandler.highest, s.prioSeqHandler.highest, s.prioSeqHandler.bitMap, s.prioSeqHandler.lock, s.reglSeqHandler.lock, s.reglSeqHandler.seen, s.prioSeqHandler.seen, s.inEpoch
+//@   callsite SequenceHandler.RolloverRequired regular-class-decides-the-rollover [C15]: arg0 == s.reglSeqHandler && !prio
+//@   callsite SequenceHandler.rolloverIndicated own-class-tested [C15]: arg0 == s.prioSeqHandler && prio
 //@   ensures priority-frames-never-restart-a-window [C03]: prio ==> s.reglSeqHandler.highest == old(s.reglSeqHandler.highest) && s.prioSeqHandler.highest == old(s.prioSeqHandler.highest) && s.prioSeqHandler.bitMap == old(s.prioSeqHandler.bitMap)
 //@   ensures cipher [C15]: err == nil ==> c != nil && c == s.inCipher && aeadkey(c) == base(s.inKey)
 //@   ensures rollover-cond [C15]: err == nil && !prio ==> (s.inEpoch == old(s.inEpoch) + 1) == rollCond(old(s.reglSeqHandler.highest), seqNum)
